@@ -20,6 +20,22 @@ fn main() {
         args.iter().position(|a| a == name).and_then(|i| args.get(i + 1)).cloned()
     };
     match args[1].as_str() {
+        "gen" => {
+            // debugging aid: print generated programs (not used by any check)
+            let profile = args.get(2).cloned().unwrap_or_else(|| "general".into());
+            let n: u64 = args.get(3).and_then(|s| s.parse().ok()).unwrap_or(3);
+            let seed: u64 = args.get(4).and_then(|s| s.parse().ok()).unwrap_or(1);
+            let len: usize = args.get(5).and_then(|s| s.parse().ok()).unwrap_or(400);
+            let mut rng = nsverif::util::SplitMix(seed);
+            for i in 0..n {
+                let tape: Vec<u8> = (0..len).map(|_| rng.next() as u8).collect();
+                let p = nsverif::progs::prepare(&tape, &profile);
+                println!("# ---- program {i} ({} stmts) issues={:?}", nsverif::nsgen::ast::count_stmts(&p.program.body), p.resolved.issues.iter().map(|x| format!("{}:{}", x.rule.name(), x.detail)).collect::<Vec<_>>());
+                println!("{}", p.source);
+                let r = nsverif::progs::reference(&p);
+                println!("# reference: {:?} ambiguous={:?} output={}", r.ending, r.ambiguous, r.output.len());
+            }
+        }
         "list" => {
             for c in nsverif::checks() {
                 println!("{}", c.id());
